@@ -68,4 +68,30 @@ theorem named_scope_witness (t : TB) (hl : t.lines ≠ []) (ht : ∀ l ∈ t.hea
   have := (C20.namespace_balanced [] t (by decide) ht).1 hl
   rw [this]; rfl
 
+/-- **include closure (shell header)**: every quoted include of the shell header names the
+    Dezyne-generated header of the model file or one of the returned support files -/
+theorem include_closure_shell (cfg : Config) (orig : Str) :
+    ∀ x ∈ shellProjectIncludes cfg orig,
+      x = orig ++ L ".hh" ∨ x ∈ (supportFiles cfg.pfx).map (·.filename) := by
+  intro x hx
+  unfold shellProjectIncludes at hx
+  simp only [List.mem_append, List.mem_cons, List.not_mem_nil, or_false] at hx
+  rcases hx with (rfl | rfl) | hx
+  · exact Or.inl rfl
+  · right; simp [supportFiles, Kind.all]
+  · right
+    split at hx
+    · simp only [List.mem_cons, List.not_mem_nil, or_false] at hx
+      rcases hx with rfl | rfl <;> simp [supportFiles, Kind.all]
+    · cases hx
+
+/-- … and a multi-client shell does include the log and selector headers, a plain one does not -/
+theorem shell_includes_selector_iff (cfg : Config) (orig : Str) :
+    (createHeader .multiClientSelector cfg.pfx).filename ∈ shellProjectIncludes cfg orig ↔
+      cfg.ports.multiclient.isSome = true ∨
+        (createHeader .multiClientSelector cfg.pfx).filename = orig ++ L ".hh" ∨
+        (createHeader .multiClientSelector cfg.pfx).filename = (createHeader .strictPort cfg.pfx).filename := by
+  unfold shellProjectIncludes
+  cases h : cfg.ports.multiclient.isSome <;> simp
+
 end C06
